@@ -124,11 +124,11 @@ CheckState(ev, st) ==
 JudgeNew(ev) ==
     IF ev.panic # "" THEN Fail("panic", "no panic", ev.panic, NoState)
     ELSE Let1(BuildFails(Prog(ev.ins), ev.entry), LAMBDA fails :
-      IF ev.err # fails THEN Fail("builderr", [err |-> fails], [err |-> ev.err], NoState)
-      ELSE IF fails THEN Pass(NoState)
-      ELSE IF GotPartition(ev) # Partition(Prog(ev.ins), ev.entry)
+      IF On("builderr") /\ ev.err # fails THEN Fail("builderr", [err |-> fails], [err |-> ev.err], NoState)
+      ELSE IF fails \/ ev.err THEN Pass(NoState)
+      ELSE IF On("partition") /\ GotPartition(ev) # Partition(Prog(ev.ins), ev.entry)
         THEN Fail("partition", Partition(Prog(ev.ins), ev.entry), GotPartition(ev), NoState)
-      ELSE IF ~ev.entryok THEN Fail("entry", "entry point inside a block", "not found", NoState)
+      ELSE IF On("entry") /\ ~ev.entryok THEN Fail("entry", "entry point inside a block", "not found", NoState)
       ELSE CheckState(ev, FreshState(ev)))
 
 Rot(s, f, t) == Rotate(s, f, t)                   \* 1-based positions
